@@ -326,3 +326,56 @@ func VerifHarness_AssignOps() {
 	}
 	verifCheckRun(mode, an, inputs, ref, ref.text+"\n")
 }
+
+// Float text: the solver has no theory of Go's float formatting (the text of a symbolic float is an opaque piece),
+// so the agreement of the two back ends on float text is additionally checked on a boundary set of concrete
+// values (exponent switch-over points of %v, integers beyond 2^53, negative zero, NaN, infinities). This part is
+// enumeration, stated as such in the evidence.
+var verifFloatCases = []float64{0, 1.5, -2.25, 99999.5, 100000, 999999.9, 1e6, 1e7, 123456789.125, 9007199254740993, 1e20, 1e21, 1e22,
+	1e-3, 1e-4, 9.9e-5, 1e-5, 1e-7, 1.0 / 3.0, 5e-324, 1.7976931348623157e308}
+
+func VerifHarness_FloatText() {
+	ci := errors.VerifNdIntRange("case", 0, len(verifFloatCases)+3)
+	var x float64
+	switch {
+	case ci < len(verifFloatCases):
+		x = verifFloatCases[ci]
+	case ci == len(verifFloatCases):
+		x = verifNegZero()
+	case ci == len(verifFloatCases)+1:
+		x = verifNaN()
+	case ci == len(verifFloatCases)+2:
+		x = verifInf(1)
+	default:
+		x = verifInf(-1)
+	}
+	neg := errors.VerifNdBool("negate")
+	if neg {
+		x = -x
+	}
+	errors.VerifTag("x", fmt.Sprint(x))
+	inputs := []verifInput{{name: "X", kind: 'f', f: x}}
+	code := "fn main() {\n  println(X);\n  println(X.to_string());\n  println([X, X]);\n  println(new { v: X });\n  println(?X);\n  println(\"v=\" + X.to_string());\n  println(X as int);\n  println((X as int) as float);\n}\n"
+	an := verifAnalyze(code, nil, inputs, true)
+	if an.hasError {
+		errors.VerifInconclusive("float text program rejected: " + an.describe())
+	}
+	errors.VerifTag("__ignore_panic", "C02")
+	var vm, tr verifOutcome
+	crashed, _ := errors.VerifPanics(func() {
+		vm = verifRunVM(an, nil, inputs, verifLimits, newVerifCtx())
+		tr = verifRunTree(an, nil, inputs, 100, newVerifCtx())
+	})
+	if crashed {
+		return // C02's subject
+	}
+	errors.VerifReached("ran")
+	verifAgree(vm, tr)
+}
+
+func verifNegZero() float64 { z := 0.0; return -z }
+func verifNaN() float64     { z := 0.0; return z / z }
+func verifInf(sign int) float64 {
+	z := 0.0
+	return float64(sign) / z
+}
